@@ -19,5 +19,5 @@ for spec in sys.argv[1:]:
                    "with_failing_input": len(v) - nf, "wall_s": round(time.time() - t, 1)}
             print(json.dumps(rec)); out.write(json.dumps(rec) + "\n"); out.flush()
     finally:
-        subprocess.run(["git", "-C", "/repo", "checkout", "--", "."])
+        subprocess.run(["git", "-C", "/repo", "reset", "-q", "--hard", "HEAD"])
         subprocess.run(["git", "-C", "/repo", "clean", "-fdq"])
